@@ -176,6 +176,45 @@ func c06Sites() []c06Site {
 			}
 			return fmt.Sprint(l.DefaultValue()), true
 		}, false},
+		// a when handed down by a uses and the when a member of the grouping states itself are both kept
+		{"grouping-member/when-under-uses-when", c06Hdr + `revision 0; grouping g { leaf l { type string; when ARG; } leaf l2 { type string; when "other"; } container c3 { when "third"; } } uses g { when "u"; } }`, func(m *meta.Module) (string, bool) {
+			w := leafOf(m, "l").(*meta.Leaf).When()
+			if w == nil || w.Also() == nil || w.Expression() != "u" || !w.FromAncestor() {
+				return "", false
+			}
+			if w2 := leafOf(m, "l2").(*meta.Leaf).When(); w2 == nil || w2.Also() == nil || w2.Also().Expression() != "other" {
+				return "sibling lost its own when", true
+			}
+			if w3 := leafOf(m, "c3").(*meta.Container).When(); w3 == nil || w3.Also() == nil || w3.Also().Expression() != "third" {
+				return "sibling lost its own when", true
+			}
+			return w.Also().Expression(), true
+		}, false},
+		{"uses/when-over-members-with-own-when", c06Hdr + `revision 0; grouping g { leaf l { type string; when "own"; } leaf l2 { type string; } } uses g { when ARG; } }`, func(m *meta.Module) (string, bool) {
+			w, w2 := leafOf(m, "l").(*meta.Leaf).When(), leafOf(m, "l2").(*meta.Leaf).When()
+			if w == nil || w2 == nil || w.Also() == nil || w.Also().Expression() != "own" || w2.Also() != nil || w2.Expression() != w.Expression() {
+				return "", false
+			}
+			return w.Expression(), true
+		}, false},
+		{"augment-member/when-under-augment-when", c06Hdr + `revision 0; container c { } augment "/c" { when "u"; leaf l { type string; when ARG; } leaf l2 { type string; when "other"; } } }`, func(m *meta.Module) (string, bool) {
+			c := leafOf(m, "c").(*meta.Container)
+			var w, w2 *meta.When
+			for _, d := range c.DataDefinitions() {
+				if d.Ident() == "l" {
+					w = d.(*meta.Leaf).When()
+				} else if d.Ident() == "l2" {
+					w2 = d.(*meta.Leaf).When()
+				}
+			}
+			if w == nil || w.Also() == nil || w.Expression() != "u" {
+				return "", false
+			}
+			if w2 == nil || w2.Also() == nil || w2.Also().Expression() != "other" {
+				return "sibling lost its own when", true
+			}
+			return w.Also().Expression(), true
+		}, false},
 		{"leaf/when", c06Hdr + `revision 0; leaf l { type string; when ARG; } }`, func(m *meta.Module) (string, bool) {
 			w := leafOf(m, "l").(*meta.Leaf).When()
 			if w == nil {
